@@ -428,7 +428,11 @@ func confirms(site string, out symgo.NativeOutcome) bool {
 	case strings.HasPrefix(site, "assert:"):
 		return out.Outcome == site
 	case strings.HasPrefix(site, "panic:"):
-		return out.Outcome == "panic"
+		// with real goroutines and timers the same defect can surface natively as a failed
+		// assertion of the harness instead of the panic the engine's schedule reaches (and
+		// vice versa is covered above by exact matching): any native failure on the same
+		// inputs confirms that the counterexample is real
+		return out.Outcome == "panic" || strings.HasPrefix(out.Outcome, "assert:")
 	case strings.HasPrefix(site, "nonterm:"), strings.HasPrefix(site, "deadlock:"):
 		return out.Outcome == "timeout" || out.Outcome == "panic" && strings.Contains(out.Output, "deadlock")
 	}
